@@ -27,6 +27,9 @@ doh <zoneAware> <pathhex> <METHOD> <zoned> <ndns> {bad|<hex|->} ; <wirehex> <unp
 jsonreq <zoneAware> <pathhex> <zoned> <id> <nameBad> <namehex> <type> <qc> <cd> <do> <sde> <outcome…>  → <status> <k> {| jsonview}
 dce2e <dcudp|dctcp> <wirehex> <unpacked> … q <nq> {…}     a decrypted DNSCrypt message, library filter included
   → <status> <k> {| resp}
+fault <dcRecovers> <transport> <wok> <-|rcode:n> <wirehex> <unpacked> … q <nq> {…}    the handler panics (after writing, if rcode:n)
+  → <up> <status> <k> {| resp} f<fin>
+life <reboot> <pooled> {s|x|a}      Start / Shutdown / an arrival on one listener → {ok|already|notstarted|hung|served|unanswered|refused}
 quicread <poolhex|-> {; <datahex|-> <nil|eof|other>}     the results of the successive stream.Read calls
   → none | <payloadhex>                          (readQUICMsg with the real buffer size on that script)
 ```
@@ -258,6 +261,30 @@ def step (s : Unit) : List String → Unit × String
       let sees := serveDNSCryptE2E tr f.um f.o
       (s, s!"{sees.status} {sees.msgs.length} " ++ " ".intercalate (sees.msgs.map showResp))
     | _, _ => (s, "bad-op")
+  | "fault" :: dc :: t :: wok :: pw :: rest =>
+    -- fault <dcRecovers> <transport> <wok> <-|rcode:n> <frame>: the handler panics (after writing rcode/n records, if given)
+    match parseTransport t, parseFrame rest with
+    | some tr, some f =>
+      (match f.um with
+      | none => let d := serveWire tr none .silent (bool! wok)
+                (s, s!"1 {d.status} 0  f{showB d.fin}")
+      | some m =>
+        let w : Option Resp := match pw.splitOn ":" with
+          | [rc, n] => some (handlerResp m (nat! rc) (nat! n))
+          | _ => none
+        let r := serveMsgF (bool! dc) tr m (.panics w) (bool! wok)
+        (s, s!"{showB r.up} {r.sees.status} {r.sees.msgs.length} " ++ " ".intercalate (r.sees.msgs.map showResp)
+            ++ s!" f{showB r.sees.fin}"))
+    | _, _ => (s, "bad-op")
+  | "life" :: reboot :: pooled :: ops =>
+    let parsed : List (Option LOp) := ops.map fun o =>
+      if o == "s" then some .start else if o == "x" then some .shutdown else if o == "a" then some .arrive else none
+    if parsed.any (·.isNone) then (s, "bad-op") else
+    let obs := (lRun (bool! reboot) (bool! pooled) lInit (parsed.filterMap id)).2
+    let showO : LObs → String
+      | .ok => "ok" | .errAlreadyStarted => "already" | .errNotStarted => "notstarted" | .hung => "hung"
+      | .served => "served" | .unanswered => "unanswered" | .refused => "refused"
+    (s, " ".intercalate (obs.map showO))
   | _ => (s, "bad-op")
 
 def main : IO Unit := loop step ()
